@@ -47,6 +47,25 @@ ghost(F_PB, "BackupNode._handle_replicate", "ack_future.resolve(",
 # PrimaryNode._handle_write: ghost assertion before every acknowledgement of the client (three textual sites)
 ghost(F_PB, "PrimaryNode._handle_write", "reply_future.resolve(", "_c17_primary_reply(self, key, value, seq)", where="before*")
 
+# ChainNode: ghost bookkeeping of (a) the newest write received per key, (b) the writes applied at this node whose
+# commit at the tail this node has not observed yet (CRAQ: exactly those make a key dirty)
+ghost(F_CH, "ChainNode._handle_write", "yield from self._store.put(key, value)", "_c17_chain_applied(self, key, seq)")
+ghost(F_CH, "ChainNode._handle_write", "self._pending_writes.pop(seq, None)", "_c17_chain_committed(self, key, seq)", where="before")
+ghost(F_CH, "ChainNode._handle_write", "reply_future.resolve({'status': 'ok'", "_c17_chain_reply(self, key, seq, locals().get('ack_future'))", where="before")
+ghost(F_CH, "ChainNode._handle_propagate", "self._propagations_received += 1", "_c17_chain_received(self, key, value, seq)")
+ghost(F_CH, "ChainNode._handle_propagate", "yield from self._store.put(", "_c17_chain_put(self, key)", where="before")
+ghost(F_CH, "ChainNode._handle_propagate", "yield from self._store.put(", "_c17_chain_put_done(self, key, seq)")
+ghost(F_CH, "ChainNode._handle_propagate", "events = self._build_commit_notifications(key, seq)", "_c17_chain_committed(self, key, seq)", where="before")
+ghost(F_CH, "ChainNode._handle_commit_notify", "", "_c17_chain_commit_msg(self, event)", where="entry")
+ghost(F_CH, "ChainNode._handle_read", "reply_future.resolve(", "_c17_chain_read_reply(self, key, value)", where="before")
+
+# ChainNode._find_tail: while node.next_node is not None  /  _build_commit_notifications: while node is not None
+loop(F_CH, "ChainNode._find_tail", 1, inv=[("walks-the-chain", lambda L: True)])
+loop(F_CH, "ChainNode._build_commit_notifications", 1, types={"events": lambda: Seq(Ref(Event)), "node": lambda: OptRef(ChainNode)},
+     modifies=[("Event", "time"), ("Event", "event_type"), ("Event", "daemon"), ("Event", "target"), ("Event", "on_complete"),
+               ("Event", "_sort_index"), ("Event", "_id"), ("Event", "_cancelled"), ("Event", "context")],
+     inv=[("every-notification-names-the-key-and-the-seq", lambda L: _all_commit_notifies(L.self, L.events, L.key, L.seq))])
+
 from specs.common import *  # noqa: E402,F401
 
 import happysimulator.components.replication.multi_leader as _ml_mod  # noqa: E402
@@ -360,7 +379,7 @@ class RecProxy:
 # one record type for every message of the three replication protocols
 MSG = Record("replmsg", {
     "source": Str, "destination": Str, "key": Str, "value": Any, "seq": Int,
-    "ack_future": Ref(SimFuture), "reply_future": Ref(SimFuture),
+    "ack_future": OptRef(SimFuture), "reply_future": OptRef(SimFuture),
     "timestamp": Real, "writer_id": Str, "vector_clock": VC, "root_hash": Str})
 M = MSG.dt
 
@@ -423,6 +442,11 @@ def mhas(m, *keys):
 def mget(m, k):
     """wrapped field of a raw message term"""
     return MSG.fields[k].wrap(MSG.acc(k)(m))
+
+
+def mfut(m, k):
+    """the future stored under key k of a raw message term, as a proxy (no fork; meaningful where present and not None)"""
+    return ObjProxy(MSG.acc(k)(m), SimFuture)
 
 
 def kt(k):
@@ -582,9 +606,9 @@ def _resolved_values(fut=None):
 def _read_reply(s):
     """a read replies (if asked to) with what the node's store holds for the key when the store read completes"""
     m = md(s.event)
-    if not z3.is_true(z3.simplify(MSG.has(m, "reply_future"))) and not _ctx.cur().branch(MSG.has(m, "reply_future"), site="spec"):
+    if not _ctx.cur().branch(z3.And(MSG.has(m, "reply_future"), MSG.acc("reply_future")(m) != 0), site="spec"):
         return len(_resolved_values()) == 0
-    vals = _resolved_values(mget(m, "reply_future"))
+    vals = _resolved_values(mfut(m, "reply_future"))
     if len(vals) != 1:
         return False
     v = vals[0]["value"]
@@ -679,8 +703,8 @@ def _replicate_messages(s, y):
         ok = ok & (mget(m, "destination") == b.name) & (mget(m, "key") == mget(req, "key")) \
             & mk_bool(MSG.acc("value")(m) == MSG.acc("value")(req)) & (mget(m, "seq") >= 1) & (mget(m, "seq") <= s.self._seq)
         if mode is not ReplicationMode.ASYNC:
-            ok = ok & mhas(m, "ack_future")
-            a = mget(m, "ack_future")
+            ok = ok & mhas(m, "ack_future") & mk_bool(MSG.acc("ack_future")(m) != 0)
+            a = mfut(m, "ack_future")
             ok = ok & Not(a._resolved)
             for (_b2, a2) in sent:
                 ok = ok & Not(same(a, a2))
@@ -718,3 +742,311 @@ fn(PrimaryNode, "_handle_write", args={"event": Ref(Event)}, uses=KV_API + [FUT_
                            ("one-replicate-message-per-backup-carrying-the-write", _replicate_messages)],
                  rely=[_future_rely], resume=_future_resume, stable=NODE_STABLE),
    ensures=[("returns-nothing", lambda s: s.result is None)])
+
+fn(PrimaryNode, "_handle_read", args={"event": Ref(Event)}, uses=KV_API + [FUT_RESOLVE], requires=[READ_WF],
+   focus=lambda s: [s.self._store],
+   yields=Yields(at_yield=[("delay-nonnegative", _delay_ok)], stable=NODE_STABLE),
+   ensures=[("replies-with-the-stored-value", _read_reply),
+            ("store-untouched", lambda s: mk_bool(s.self._store._data.term == s.pre(s.self._store)._data.term))])
+
+
+def _acked_key(name):
+    return mk_str(z3.Concat(z3.StringVal("_acked_"), kt(name)))
+
+
+def mk_str(t):
+    return Str.wrap(t)
+
+
+def _ack_post(s):
+    m = md(s.event)
+    src, seq = mget(m, "source"), mget(m, "seq")
+    ak = _acked_key(src)
+    old, new = s.old(s.self)._backup_lag, s.self._backup_lag
+    prev = old.get(ak, 0)
+    return (new.get(ak, 0) == ite(seq > prev, seq, prev)) \
+        & implies(seq > prev, new.get(src, -1) == s.self._seq - seq)
+
+
+fn(PrimaryNode, "_handle_ack", args={"event": Ref(Event)},
+   requires=[("ack-names-backup-and-seq", lambda s: mhas(md(s.event), "source", "seq"))],
+   ensures=[("acknowledged-seq-per-backup-is-the-maximum-seen--lag-is-the-distance-to-it", _ack_post),
+            ("counts-the-ack", lambda s: s.self._acks_received == s.old(s.self)._acks_received + 1),
+            ("sequence-counter-untouched", lambda s: unchanged(s, s.self, "_seq"))])
+
+# ============================================================================ F. chain replication
+from happysimulator.components.replication.chain_replication import ChainNode, ChainNodeRole  # noqa: E402
+import happysimulator.components.replication.chain_replication as _ch_mod  # noqa: E402
+
+ROLE = EnumTy(ChainNodeRole)
+ISET = Set(Int)
+UNC = Map(Str, ISET)
+cls(ChainNode, fields={"_store": Ref(KVStore), "_network": Ref(Network), "_role": ROLE, "_craq_enabled": Bool,
+                       "next_node": OptRef(ChainNode), "prev_node": OptRef(ChainNode), "head_node": OptRef(ChainNode),
+                       "_dirty_keys": Set(Str), "_pending_writes": Map(Int, Ref(SimFuture)), "_next_seq": Int,
+                       "_writes_received": Int, "_propagations_sent": Int, "_propagations_received": Int,
+                       "_acks_sent": Int, "_reads_served": Int,
+                       # fields of the repaired tree: in-flight write seqs per key, newest accepted write per key
+                       "_dirty_seqs": UNC, "_latest": LATEST},
+    # ghost: newest write received per key (g_seq, g_val); g_unc[k] = seqs of the writes to k applied at this
+    # node whose commit at the tail the node has not yet observed (maintained in CRAQ mode only)
+    ghost={"g_seq": Map(Str, Int), "g_val": DATA, "g_unc": UNC},
+    const=["_store", "_network", "_role", "_craq_enabled", "next_node", "prev_node", "head_node"],
+    inv=[
+        # CRAQ safety: a key with a write that is applied here but not known to be committed at the tail is dirty
+        ("key-with-uncommitted-write-is-dirty", lambda o: forall(Str, lambda k: implies(
+            has(o.g_unc, k), has(o._dirty_keys, k)))),
+        ("uncommitted-sets-nonempty", lambda o: forall(Str, lambda k: implies(
+            has(o.g_unc, k), Not(mk_bool(ISET.dt.dom(mval(o.g_unc, k)) == z3.K(z3.IntSort(), z3.BoolVal(False))))))),
+        # representation (repaired tree): the in-flight bookkeeping is exactly the ghost
+        ("dirty-seqs-are-the-uncommitted-writes", lambda o: mk_bool(UNC.dt.dom(o._dirty_seqs.term) == UNC.dt.dom(o.g_unc.term))
+            & forall(Str, lambda k: implies(has(o.g_unc, k), mk_bool(
+                ISET.dt.dom(mval(o._dirty_seqs, k)) == ISET.dt.dom(mval(o.g_unc, k)))))),
+        ("accepted-keys-are-the-received-keys", lambda o: mk_bool(
+            o._latest._ty.dt.dom(o._latest.term) == o.g_seq._ty.dt.dom(o.g_seq.term))),
+        ("accepted-write-is-the-newest-received", lambda o: forall(Str, lambda k: implies(
+            has(o.g_seq, k), mk_bool(mval(o._latest, k) == LATEST.val.dt.mk(mval(o.g_seq, k), mval(o.g_val, k)))))),
+        ("seq-counter-nonneg", lambda o: o._next_seq >= 0),
+    ],
+    guarantee=[
+        ("newest-received-seq-per-key-only-grows", lambda old, new: forall(Str, lambda k:
+            new.g_seq.get(k, 0) >= old.g_seq.get(k, 0))),
+        ("sequence-numbers-only-grow", lambda old, new: new._next_seq >= old._next_seq),
+    ])
+
+
+def _chain_received(self, key, value, seq):
+    """ghost: a Propagate message (key, value, seq) has been received"""
+    if seq >= self.g_seq.get(key, 0):
+        self.g_seq[key] = seq
+        self.g_val[key] = value
+
+
+def _chain_put(self, key):
+    """ghost: remember the value of the newest write received for the key when the store write is issued"""
+    _ctx.cur().ghost_args["c17_chain_expected"] = (has(self.g_seq, key), mval(self.g_val, key))
+
+
+def _last_put_value():
+    for q, vals, _r in reversed(_ctx.cur().ghost_args.get("trace", [])):
+        if q == "KVStore.put":
+            return vals["value"]
+    return None
+
+
+def _chain_put_done(self, key, seq):
+    """ghost assertion after the store write of a propagated write: what was written is the value of the newest
+    write received for the key (a reordered older write must not replace a newer one); then: applied here"""
+    known, expected = _ctx.cur().ghost_args["c17_chain_expected"]
+    v = _last_put_value()
+    oblige("chain/store-receives-the-value-of-the-highest-seq-received-for-the-key",
+           (v is not None) and (known & mk_bool(v.t == expected)), kind="post")
+    _chain_applied(self, key, seq)
+
+
+def _chain_applied(self, key, seq):
+    """ghost: write seq to key is now applied at this node and not known to be committed"""
+    if self._craq_enabled:
+        self.g_unc.setdefault(key, set()).add(seq)
+
+
+def _chain_committed(self, key, seq):
+    """ghost: this node has observed that write seq to key is committed at the tail"""
+    if self._craq_enabled:
+        pending = self.g_unc.get(key)
+        if pending is not None:
+            pending.discard(seq)
+            if not pending:
+                del self.g_unc[key]
+
+
+def _chain_commit_msg(self, event):
+    m = md(event)
+    if _ctx.cur().branch(MSG.has(m, "key"), site="spec") and _ctx.cur().branch(to_z3_bool(mget(m, "key") != ""), site="spec"):
+        seq = mget(m, "seq") if _ctx.cur().branch(MSG.has(m, "seq"), site="spec") else 0
+        _chain_committed(self, mget(m, "key"), seq)
+
+
+def _chain_reply(self, key, seq, ack_future):
+    """ghost assertion where the head acknowledges the client: the tail's ack for this seq has arrived"""
+    if self.next_node is None:
+        return
+    oblige("chain/client-acknowledged-only-after-the-tail-acknowledged-this-seq",
+           (ack_future is not None) and ack_future._resolved, kind="post")
+
+
+def _chain_read_reply(self, key, value):
+    """ghost assertion where a node answers a read from its own store: only the tail does, or - CRAQ - a node
+    for which the key is clean at that moment (no applied write is waiting for its commit)"""
+    if self._role is ChainNodeRole.TAIL:
+        return
+    if self.head_node is None:       # not wired into a chain: a stand-alone store
+        return
+    for q, _vals, r in _ctx.cur().ghost_args.get("trace", []):
+        if q == "ChainNode._find_tail" and (r is None or same(r, self) is True):
+            return                   # no tail at the end of the chain: not a chain wired by build_chain (see assumptions)
+    oblige("chain/only-the-tail-or-a-clean-craq-node-answers-a-read-locally",
+           self._craq_enabled & Not(has(self._dirty_keys, key)), kind="post")
+
+
+for _n, _f2 in (("applied", _chain_applied), ("committed", _chain_committed), ("reply", _chain_reply),
+                ("received", _chain_received), ("put", _chain_put), ("put_done", _chain_put_done),
+                ("commit_msg", _chain_commit_msg), ("read_reply", _chain_read_reply)):
+    setattr(_ch_mod, "_c17_chain_" + _n, _f2)
+
+
+def _all_commit_notifies(node, events, key, seq):
+    if isinstance(events, list):        # the concrete (empty) list before the loop
+        return len(events) == 0
+    return forall(Int, lambda j: implies((0 <= j) & (j < slen(events)), _is_commit_notify(node, events, j, key, seq)), "j")
+
+
+def _is_commit_notify(node, events, j, key, seq):
+    e = ObjProxy(seq_term(events)[j.t], Event)
+    m = md(e)
+    return (same(e.target, node._network) & (e.event_type == "CommitNotify") & mhas(m, "key", "seq", "destination")
+            & (mget(m, "key") == key) & (mget(m, "seq") == seq))
+
+
+fn(ChainNode, "_find_tail", returns=OptRef(ChainNode), modifies=[], ensures=[
+    ("a-tail-at-the-end-of-the-chain-or-none", lambda s: True if s.result is None else
+        mk_bool(z3.And(field_term(s.result, "_role") == ROLE.unwrap(ChainNodeRole.TAIL),
+                       field_term(s.result, "next_node") == 0))),
+    ("pure", lambda s: unchanged(s, s.self))])
+FIND_TAIL = (ChainNode, "_find_tail")
+
+fn(ChainNode, "_build_commit_notifications", args={"key": Str, "seq": Int}, returns=Seq(Ref(Event)), modifies=[], ensures=[
+    ("every-notification-names-the-key-and-the-seq", lambda s: _all_commit_notifies(s.self, s.result, s.key, s.seq)),
+    ("node-state-untouched", lambda s: unchanged(s, s.self))])
+BUILD_CN = (ChainNode, "_build_commit_notifications")
+
+fn(ChainNode, "_handle_write_ack", args={"event": Ref(Event)}, uses=[FUT_RESOLVE],
+   requires=[("ack-names-a-seq", lambda s: mhas(md(s.event), "seq"))],
+   ensures=[
+    ("resolves-exactly-the-future-registered-for-that-seq", lambda s: _write_ack_post(s)),
+    ("node-state-untouched", lambda s: unchanged(s, s.self))])
+
+
+def _write_ack_post(s):
+    seq = mget(md(s.event), "seq")
+    calls = [vals for q, vals, _r in _ctx.cur().ghost_args.get("trace", []) if q == "SimFuture.resolve"]
+    pend = s.old(s.self)._pending_writes
+    if not _ctx.cur().branch(pend.__sym_contains__(seq), site="spec"):
+        return len(calls) == 0
+    if len(calls) != 1:
+        return False
+    return mk_bool(calls[0]["self"]._ref == z3.Select(pend._ty.dt.val(pend.term), num(seq)))
+
+
+fn(ChainNode, "_handle_commit_notify", args={"event": Ref(Event)},
+   ensures=[("only-the-dirty-bookkeeping-changes", lambda s: unchanged(s, s.self, "_pending_writes", "_next_seq", "_latest"))])
+
+
+def _single_event(y):
+    return y[1][0] if isinstance(y, tuple) and isinstance(y[1], list) and len(y[1]) == 1 else None
+
+
+def _applied_here(s):
+    """the store of this node holds, for the key of the write being handled, what the last store write put there"""
+    v = _last_put_value()
+    if v is None:
+        return False
+    key = mget(md(s.event), "key")
+    return has(s.self._store._data, key) & mk_bool(mval(s.self._store._data, key) == v.t)
+
+
+def _chain_write_yield(s, y):
+    """head: the write goes down the chain as one Propagate message to the next node, carrying key, value and the
+    fresh sequence number, and only after it has been applied at the head"""
+    e = _single_event(y)
+    if e is None:
+        return True
+    req, m = md(s.event), md(e)
+    nxt = s.self.next_node
+    if nxt is None:
+        return False
+    return (same(e.target, s.self._network) & (e.event_type == "Propagate") & mhas(m, "destination", "key", "value", "seq")
+            & (mget(m, "destination") == nxt.name) & (mget(m, "key") == mget(req, "key"))
+            & mk_bool(MSG.acc("value")(m) == MSG.acc("value")(req))
+            & (mget(m, "seq") >= 1) & (mget(m, "seq") <= s.self._next_seq) & _applied_here(s))
+
+
+CHAIN_FOCUS = lambda s: [s.self._store]  # noqa: E731
+fn(ChainNode, "_handle_write", args={"event": Ref(Event)}, uses=KV_API + [FUT_RESOLVE],
+   requires=[WRITE_WF, UNBOUNDED], focus=CHAIN_FOCUS,
+   yields=Yields(at_yield=[("delay-nonnegative", _delay_ok),
+                           ("propagates-the-applied-write-to-the-next-node", _chain_write_yield)],
+                 rely=[_future_rely], stable=NODE_STABLE),
+   ensures=[("returns-nothing", lambda s: s.result is None)])
+
+
+def _chain_propagate_yield(s, y):
+    """middle: forwards the very write it received, after applying it; tail: acknowledges the seq to the head after
+    applying it; CRAQ tail: commit notifications name the key and the seq"""
+    if not isinstance(y, tuple):
+        return True
+    req = md(s.event)
+    e = _single_event(y)
+    if e is not None and _ctx.cur().branch(to_z3_bool(e.event_type == "Propagate"), site="spec"):
+        m = md(e)
+        nxt = s.self.next_node
+        if nxt is None or s.self._role is ChainNodeRole.TAIL:
+            return False
+        return (same(e.target, s.self._network) & mhas(m, "destination", "key", "value", "seq")
+                & (mget(m, "destination") == nxt.name) & (mget(m, "key") == mget(req, "key"))
+                & mk_bool(MSG.acc("value")(m) == MSG.acc("value")(req)) & (mget(m, "seq") == mget(req, "seq"))
+                & _applied_here(s))
+    if e is not None and _ctx.cur().branch(to_z3_bool(e.event_type == "WriteAck"), site="spec"):
+        m = md(e)
+        return ((s.self._role is ChainNodeRole.TAIL) and (same(e.target, s.self._network) & mhas(m, "destination", "seq")
+                & (mget(m, "seq") == mget(req, "seq")) & _applied_here(s)))
+    # commit notifications (CRAQ tail)
+    evs = y[1]
+    if isinstance(evs, list):
+        return False
+    return (s.self._role is ChainNodeRole.TAIL) and _all_commit_notifies(s.self, evs, mget(req, "key"), mget(req, "seq"))
+
+
+fn(ChainNode, "_handle_propagate", args={"event": Ref(Event)}, uses=KV_API + [BUILD_CN],
+   requires=[REPL_WF, UNBOUNDED], focus=CHAIN_FOCUS,
+   yields=Yields(at_yield=[("delay-nonnegative", _delay_ok),
+                           ("forwards-or-acknowledges-the-applied-write", _chain_propagate_yield)],
+                 stable=NODE_STABLE),
+   ensures=[("returns-nothing", lambda s: s.result is None)])
+
+
+def _chain_read_yield(s, y):
+    """a read this node may not answer is forwarded to the tail, with the key and the client's reply future"""
+    e = _single_event(y)
+    if e is None:
+        return True
+    req, m = md(s.event), md(e)
+    return (same(e.target, s.self._network) & (e.event_type == "Read") & mhas(m, "destination", "key")
+            & (mget(m, "key") == mget(req, "key"))
+            & mk_bool(z3.If(z3.And(MSG.has(req, "reply_future")), MSG.acc("reply_future")(req), 0)
+                      == z3.If(MSG.has(m, "reply_future"), MSG.acc("reply_future")(m), 0)))
+
+
+def seg_unchanged(s, obj, *fields):
+    """the current atomic segment has not written the listed fields of obj"""
+    o = s.pre(obj)
+    parts = []
+    for f in fields:
+        owner, ty = REG.field(obj._cls, f)
+        parts.append(field_term(obj, f) == field_term(o, f))
+    return mk_bool(z3.And(*parts))
+
+
+CHAIN_STATE = ["_dirty_keys", "_dirty_seqs", "_latest", "_pending_writes", "_next_seq", "g_seq", "g_val", "g_unc"]
+# (a read does not touch the replication state: the class invariants are preserved because no segment writes the
+# fields they speak about - checked per segment instead of re-proving each invariant on each of the many paths)
+fn(ChainNode, "_handle_read", args={"event": Ref(Event)}, uses=KV_API + [FUT_RESOLVE, FIND_TAIL],
+   requires=[READ_WF, ("store-latency-nonneg (KVStore invariant)", lambda s: s.self._store._read_latency >= 0)],
+   focus=CHAIN_FOCUS, inv=False,
+   yields=Yields(at_yield=[("delay-nonnegative", _delay_ok),
+                           ("forwarded-read-carries-key-and-reply-future", _chain_read_yield),
+                           ("replication-state-untouched", lambda s, y: seg_unchanged(s, s.self, *CHAIN_STATE))],
+                 stable=NODE_STABLE),
+   ensures=[("store-untouched", lambda s: mk_bool(s.self._store._data.term == s.pre(s.self._store)._data.term)),
+            ("replication-state-untouched", lambda s: seg_unchanged(s, s.self, *CHAIN_STATE))])
+
